@@ -181,6 +181,8 @@ var tranKinds = []tranKind{
 }
 
 func runC19(c *Ctx) {
+	runRefusedDeviceHasNoEffect(c)
+	runLimitConfig(c) // an accepted MaxRecvSize takes effect by whatever route it was configured, on every transport
 	c.Rep.Rule = "cross product: every option name (all documented constants, transport-specific names, arbitrary strings) x 20 values (ints min,-1,0,1,2,255,256,max; durations -1,0,1ns,1h; bools; string, nil, []byte, uint8, int64, float64) x every object (24 sockets, contexts of the 5 patterns that have them, dialers and listeners of 5 transports), each call under recover with a watchdog, result class compared with the Lean option table evaluated over the regenerated guards; " +
 		"plus unsupported operations, option inheritance, zero-duration semantics and queue resizing with a blocked receiver; class = (object, option, value type, outcome); trivial = an unsupported option refused as such"
 	for _, sk := range allSocks {
